@@ -223,8 +223,9 @@ class NixSourceCode:
                         argument = output.argument
                         while isinstance(argument, Parenthesis):
                             argument = argument.value
-                        if isinstance(argument, Identifier) and scopes:
-                            set_resolution_context(argument, scopes)
+                        call_scopes = scopes_for_owner(output, enclosing=scopes)
+                        if isinstance(argument, Identifier) and call_scopes:
+                            set_resolution_context(argument, call_scopes)
                             argument = argument.value
                         if isinstance(argument, AttributeSet):
                             return argument
